@@ -37,7 +37,16 @@ func (x *XDateTime) Truthy() bool {
 
 // Render returns the canonical text representation
 func (x *XDateTime) Render() string {
-	return dates.FormatISO(x.Native())
+	return dates.FormatISO(isoRenderable(x.Native()))
+}
+
+// ISO8601 offsets only have hours and minutes, so a time in a zone whose offset has seconds (i.e. a date before standard
+// time was adopted there) is rendered in UTC, otherwise it wouldn't parse back to the same instant
+func isoRenderable(t time.Time) time.Time {
+	if _, offset := t.Zone(); offset%60 != 0 {
+		return t.UTC()
+	}
+	return t
 }
 
 // Format returns the pretty text representation
@@ -110,7 +119,7 @@ func (x *XDateTime) Compare(o XValue) int {
 
 // MarshalJSON is called when a struct containing this type is marshaled
 func (x *XDateTime) MarshalJSON() ([]byte, error) {
-	return jsonx.Marshal(dates.FormatISO(x.Native()))
+	return jsonx.Marshal(dates.FormatISO(isoRenderable(x.Native())))
 }
 
 // UnmarshalJSON is called when a struct containing this type is unmarshaled
